@@ -146,10 +146,13 @@ def discharge(ob: Obligation, timeout_ms=10000, use_cvc5=True, hook=None):
     if use_cvc5:
         t0 = time.time()
         res = _cvc5(s.to_smt2().replace('(check-sat)', ''), max(1, timeout_ms // 1000))
-        if res != 'unsat':      # last resort: z3 default with the full budget
-            r3, s3, ms3 = _check(ob.pc, g, timeout_ms)
+        if res != 'unsat':      # last resort: both z3 configurations again with the full budget (wall-clock budgets shrink when all cores are busy)
+            r3, s3, ms3 = _check(ob.pc, g, timeout_ms, mbqi=False)
             if r3 == z3.unsat:
-                return dict(verdict='proved', backend='z3', ms=ms + ms3)
+                return dict(verdict='proved', backend='z3(e-matching)', ms=ms + ms3)
+            r3, s3, ms4 = _check(ob.pc, g, timeout_ms)
+            if r3 == z3.unsat:
+                return dict(verdict='proved', backend='z3', ms=ms + ms3 + ms4)
         ms2 = (time.time() - t0) * 1000
         if res == 'unsat':
             return dict(verdict='proved', backend='cvc5', ms=ms + ms2)
